@@ -18,8 +18,11 @@ for sh in sorted(glob.glob(d + '/shard-%s-*.ndjson' % tag)):
             key = (sc['proto'], sc['side'], sc['shape'], sc['raw'], sc['tail'], ev['ev'], ev.get('ok'), ev.get('code'))
             ex.setdefault(key, (bodies, 'cut', sc['cut'], 'lim', sc['limit'], sc['enc'], sc['trailers'], [json.loads(x) for x in lines[k + 1:l + 1]][-5:]))
         else:
-            key = tuple(str(sc.get(x)) for x in sys.argv[3:]) + (ev['ev'],)
-            ex.setdefault(key, (json.dumps(sc)[:600], json.dumps([json.loads(x) for x in lines[k + 1:l + 1]][-2:])[:1200]))
+            brief = {kk: vv for kk, vv in ev.items() if kk not in ('stacks', 'stack', 'hdr', 'trl', 'problems')}
+            if ev.get('problems'):
+                brief['problems'] = ev['problems'][:2]
+            key = tuple(str(sc.get(x)) for x in sys.argv[3:]) + (json.dumps(brief)[:300],)
+            ex.setdefault(key, '')
         sigs[key] += 1
 for k, v in sorted(sigs.items(), key=lambda x: -x[1])[:int(40)]:
     print(v, k, ex[k])
